@@ -20,8 +20,9 @@ Model of the public API surface of leaspy used by properties C11, C12 and C13.  
 The model follows the code *after* the repairs F6 (FitOutputManager initialises `path_output`) and F8
 (scipy_minimize forgets individual latent values inherited from a fit); the behaviour as shipped is kept
 next to it (`iterationShipped`, `applyShipped`) so that the defects stay stated.  F7 (the file stores the instance
-name and `load` uses it as the model kind) and F17 (double-precision parameters are narrowed by `load`) are
-not repaired and are reproduced by the model.
+name and `load` uses it as the model kind) and F21 (double-precision parameters are narrowed by `load`) are
+not repaired and are reproduced by the model, as is F23 (a model without feature names is saved with
+`"features": null`, which the constructor called by `load` cannot take).
 -/
 namespace LeaspyVerif.Api
 
@@ -32,6 +33,7 @@ inductive Err where
   | value        -- ValueError  (`ModelName(name)` for an unknown name)
   | attribute    -- AttributeError
   | runtime      -- RuntimeError (`Tensor.view` with the wrong number of elements)
+  | type         -- TypeError
   deriving DecidableEq, Repr
 
 /-- Outcome of a call (core `Except` has no `DecidableEq`). -/
@@ -348,6 +350,9 @@ def load (narrow : Rat → Rat) (f : FileD) : Out Model :=
   match Kind.ofName st.name with
   | none => .err .value
   | some k =>
+    -- `TimeReparametrizedModel.__init__`: `if "features" in kwargs: dimension = len(kwargs["features"])`;
+    -- `to_dict` always writes the key, `null` when the model has no feature names (finding F23)
+    if st.hyp.features.isNone then .err .type else
     (checkHyp st.hyp).bind fun h =>
     match h.dim, h.sourceDim with
     | some d, some s =>
@@ -361,7 +366,7 @@ def Model.canonical (narrow : Rat → Rat) (m : Model) : Bool :=
   | some d, some s =>
     m.params.map (fun p => (p.1, p.2.shape)) == paramSpec m.kind d s m.hyp.scalarNoise m.hyp.nClusters m.hyp.nbEvents
       && m.params.all (fun p => numel p.2.shape == p.2.data.length && p.2.data.all (fun x => narrow x == x))
-      && checkHyp m.hyp == .ok m.hyp
+      && checkHyp m.hyp == .ok m.hyp && m.hyp.features.isSome
   | _, _ => false
 
 /-- Round to the nearest float32 (ties to even), exact on rationals; subnormals / overflow are not modelled
